@@ -5,11 +5,14 @@ Streams (all cases are one line; texts are hex-encoded byte strings `x<hex>`):
   mesh   <tag> <hex>           MeshFileReader -> dump via accessors, MeshFileWriter text, 2nd generation flags
   ini    <replace> <hex>       PropertyMap::read -> dump, PropertyMap::write text, 2nd generation flags
   graph / graphdef / gbytes    Graph::serialize / Graph(buffer)
-The tag of a mesh case is the generator's expectation (ignored by harness and model):
-  A must be accepted, R must be rejected with a documented exception, U either (but never a crash),
-  K<digits> input in which `hazardous()` recognises defect classes of KNOWN_FINDINGS.json ("c11-edge:K<n>"); it is judged
-  like any other case (classes 4/5 must be rejected); `signature()` maps a failure to its class only if the class explains
-  the kind of failure - everything else gets a "c11-new:" signature and is a VIOLATION.
+The tag of a mesh case is `<E>[K<classes>]` (ignored by harness and model):
+  E = A must be accepted, R must be rejected with a documented exception, U either (but never a crash) - E is what the
+  generator KNOWS BY CONSTRUCTION (what it printed and which single change it made); it is the only part of the tag that
+  can make the oracle report a failure.  K<classes> = defect classes of KNOWN_FINDINGS.json ("c11-edge:K<n>") recognised
+  in the input text by `hazardous()` or attached by the mutator; they are used by `signature()` only, i.e. they can
+  downgrade a failure to a known finding when the class explains the kind of failure, never create one.  Text
+  re-readers (`hazardous`, `incomplete_input`) do not implement the scanner's lexical rules exactly and are therefore
+  never used for verdicts; `incomplete_input` survives as a self-test statistic (`recogniser_divergence`).
 """
 import binascii
 import json
@@ -371,6 +374,29 @@ def expected_dump(st):
 # malformed stream: grammar-aware mutations of a valid file
 # -------------------------------------------------------------------------------------------------
 
+def split_tag(tag):
+    """case tag = <E>[K<classes>]: E in A/R/U is the expectation the generator KNOWS BY CONSTRUCTION (what it printed
+    and what it changed); the classes are defect classes recognised in the input text.  Soundness rule: only E can
+    make the oracle report a failure; recognised classes can only downgrade a failure to a known finding.
+    A bare K<classes> tag means E = U."""
+    if tag[:1] in "ARU":
+        return tag[0], (tag[2:] if tag[1:2] == "K" else "")
+    if tag[:1] == "K":
+        return "U", tag[1:]
+    return "U", ""
+
+
+def join_tag(e, classes):
+    classes = "".join(sorted(set(classes)))
+    return e + ("K" + classes if classes else "")
+
+
+def add_recognised(tag, text):
+    e, cl = split_tag(tag)
+    hz = hazardous(text)
+    return join_tag(e, cl + (hz[1:] if hz else ""))
+
+
 CONTENT_ROLES = ("vert-line", "topo-line", "map-line", "attr-line", "patch-line")
 HAZ_NUM = re.compile(r'(?:size|dim|rank|level)\s*=\s*"([^"]*)"')
 
@@ -442,7 +468,7 @@ def block_ranges(lines):
     out = []
     for i, (role, t) in enumerate(lines):
         if role == "patch-closed":
-            out.append(("patch", i, i, "KA"))
+            out.append(("patch", i, i, "RKA"))
             continue
         if role not in BLOCK_OPEN:
             continue
@@ -462,7 +488,7 @@ def block_ranges(lines):
         elif role == "attr-open":
             tag = "U"
         elif role == "patch-open":
-            tag = "KA"
+            tag = "RKA"
         out.append((role[:-5], i, j, tag))
     return out
 
@@ -596,9 +622,9 @@ def mutate(rng, L, st):
                 elif role in ("topo-line", "patch-line") and choice == "neg":
                     tag = "R"
                 elif integer and choice in ("garbage", "float", "hex"):
-                    tag = "K5"       # lenient number parsing (trailing garbage ignored)
+                    tag = "RK5"      # lenient number parsing (trailing garbage ignored)
                 elif role == "map-line" and choice == "neg":
-                    tag = "K4"       # wraps to 2^64-1, mapping indices are never range-checked
+                    tag = "RK4"      # wraps to 2^64-1, mapping indices are never range-checked
                 else:
                     tag = "U"
     elif kind == "xml":
@@ -698,10 +724,7 @@ def mutate(rng, L, st):
                 del b[p]
         text = b.decode("latin-1")
         tag = "U"
-    hz = hazardous(text)
-    if hz is not None:
-        tag = "K" + "".join(sorted(set(hz[1:]) | set(tag[1:] if tag.startswith("K") else "")))
-    return tag, text, kind
+    return add_recognised(tag, text), text, kind
 
 
 # =================================================================================================
@@ -1031,6 +1054,7 @@ def first_content_line(text):
 
 def oracle_mesh(case, out):
     _, tag, h = case.split(" ", 2)
+    exp, classes = split_tag(tag)      # only `exp` (known by construction) may create a failure below
     cls = outcome_class(out)
     malformed = case in KIND
     if malformed:
@@ -1043,20 +1067,19 @@ def oracle_mesh(case, out):
             STATS["malformed_past_scanner"] += 1
         if cls == "ok" or (cls in DOC_ERR and fc is not None and len(toks) > 2 and int(toks[2]) >= fc):
             STATS["malformed_reached_content"] += 1
-    if tag.startswith("K"):
-        STATS["known_defect_inputs"][tag] = STATS["known_defect_inputs"].get(tag, 0) + 1
+    if classes:
+        STATS["known_defect_inputs"]["K" + classes] = STATS["known_defect_inputs"].get("K" + classes, 0) + 1
     if cls in CRASH:
         return "memory error / hang / undocumented termination: " + out[:120]
     if cls == "notype":
         return None
-    # classes 4/5 are inputs with an out-of-range / syntactically malformed number: they must be rejected
-    if tag == "R" or (tag.startswith("K") and set(tag[1:]) & set("45A")):
+    if exp == "R":
         STATS["must_reject"] += 1
         if cls == "ok":
             return "input violating its declared counts/dimensions/index ranges/syntax was accepted"
         return None
     if cls != "ok":
-        if tag == "A":
+        if exp == "A":
             return "valid mesh file rejected: " + out[:120]
         return None
     # accepted: the dump must be internally consistent and the two generations must agree
@@ -1066,7 +1089,7 @@ def oracle_mesh(case, out):
     if rt.startswith("ERR"):
         return "the writer's output of an accepted file is rejected by the reader:" + rt
     flags = rt.split()
-    if tag == "A":
+    if exp == "A":
         STATS["must_accept"] += 1
     if flags != ["1", "1"]:
         return "second generation differs (structure equal=%s, bytes equal=%s)" % tuple(flags[:2])
@@ -1074,10 +1097,10 @@ def oracle_mesh(case, out):
     why = check_dump_wf(dump)
     if why:
         return why
-    inc = incomplete_input(unhx(h))
-    if inc:
-        if True:
-            return "input violating its declared counts was accepted (zero-filled data stands in for a missing block): " + inc
+    # recogniser self-test (statistics only, never a verdict): an accepted file in which the text re-reader misses a
+    # block means the re-reader, not FEAT, is wrong (it does not implement the scanner's lexical rules exactly)
+    if incomplete_input(unhx(h)):
+        STATS["recogniser_divergence"] = STATS.get("recogniser_divergence", 0) + 1
     if case in EXPECT and dump != EXPECT[case]:
         return "parsed structure differs from the generated one: got %s expected %s" % (dump[:300], EXPECT[case][:300])
     return None
@@ -1359,10 +1382,10 @@ def signature(case, out, why):
     kind of failure; anything else is new"""
     t = case.split(" ", 2)
     op = t[0]
-    if op == "mesh" and t[1].startswith("K"):
+    if op == "mesh" and split_tag(t[1])[1]:
         kind = failure_kind(out, why)
         for d in K_ORDER:
-            if d in t[1][1:] and kind in K_KINDS[d]:
+            if d in split_tag(t[1])[1] and kind in K_KINDS[d]:
                 return "c11-edge:K" + K_NAME.get(d, d)
     if op == "ini" and why and why.startswith("property map second generation differs [key"):
         return "c11-edge:K7"
@@ -1376,7 +1399,7 @@ def model_filter(case):
     if t[0] == "mesh":
         # known-defect classes end in crashes / runtime-decided behaviour on the implementation side; charts are
         # not modelled (tier B)
-        if t[1].startswith("K") and (set(t[1][1:]) - set("45A")):
+        if set(split_tag(t[1])[1]) - set("45A"):
             return False
         if "<Chart" in unhx(t[2]):
             return False
@@ -1411,9 +1434,9 @@ def corpus_cases():
                '<Topology dim="1">\n</Topology>\n<Topology dim="2">\n0 1 2 3\n</Topology>\n</Mesh>\n' + E),
         ("K9", H + M + '<Partition size="3 1">\n<Patch rank="0" size="0">\n</Patch>\n</Partition>\n' + E),
         ("K9", H + M + '<Partition size="2 4" />\n' + E),
-        ("K4", H + M + part('<Mapping dim="0">\n-1\n</Mapping>\n', 'topology="none" size="1"') + E),
-        ("K5", H + M.replace("0 1 2 3\n", "0 1 2 3x\n") + E),
-        ("K5", H + M.replace('size="4 4 1"', 'size="4x 4 1"') + E),
+        ("RK4", H + M + part('<Mapping dim="0">\n-1\n</Mapping>\n', 'topology="none" size="1"') + E),
+        ("RK5", H + M.replace("0 1 2 3\n", "0 1 2 3x\n") + E),
+        ("RK5", H + M.replace('size="4 4 1"', 'size="4x 4 1"') + E),
         ("A", H + '<Chart name="c">\n<Circle radius="1" midpoint="0 0" domain="0 1" />\n</Chart>\n' + M +
               part(mp0, 'chart="c" topology="none" size="2"') + E),
         ("R", H + M + part(mp0, 'chart="nochart" topology="none" size="2"') + E),
@@ -1475,16 +1498,13 @@ def sweep_cases():
         for bk, i, j, tag in block_ranges(L.l):
             lines = L.l[:i] + L.l[j + 1:]
             text = "\n".join(t for _, t in lines) + "\n"
-            hz = hazardous(text)
-            if hz:
-                tag = "K" + "".join(sorted(set(hz[1:]) | set(tag[1:] if tag.startswith("K") else "")))
-            case = "mesh %s %s" % (tag, hx(text))
+            case = "mesh %s %s" % (add_recognised(tag, text), hx(text))
             KIND[case] = "sweep:" + bk
             cases.append(case)
         for zd in range(dim + 1):
             st0 = sweep_struct(shape, dim, zero_dim=zd, small=small)
             L0 = print_mesh_file(rng, st0, fancy=False)     # the printer omits Mapping/Topology blocks of size 0
-            c0 = "mesh %s %s" % (hazardous(L0.text()) or "A", hx(L0.text()))
+            c0 = "mesh %s %s" % (add_recognised("A", L0.text()), hx(L0.text()))
             EXPECT[c0] = expected_dump(st0)
             cases.append(c0)
     return cases
@@ -1543,7 +1563,7 @@ def main(argv):
         st = gen_mesh_struct(rng)
         L = print_mesh_file(rng, st, fancy=(i % 4 != 0))
         text = L.text()
-        case = "mesh %s %s" % (hazardous(text) or "A", hx(text))
+        case = "mesh %s %s" % (add_recognised("A", text), hx(text))
         EXPECT[case] = expected_dump(st)
         valid.append(case)
         texts.append(text)
